@@ -56,6 +56,9 @@ def origin(exc):
     return "?"
 
 
+PER_ATOM_EXTRA = ("occupancies", "bfactors", "chainids", "velocities", "segid", "resid", "species")
+
+
 def consistent(obj):
     """Problems with mutually inconsistent shapes in a returned IOData object."""
     out = []
@@ -70,6 +73,13 @@ def consistent(obj):
         for k, v in (obj.atcharges or {}).items():
             if hasattr(v, "__len__") and len(v) != n:
                 out.append(f"atcharges[{k}] has {len(v)} entries for {n} atoms")
+        for k, v in (obj.atffparams or {}).items():  # force-field parameters are per-atom by definition
+            if hasattr(v, "__len__") and len(v) != n:
+                out.append(f"atffparams[{k}] has {len(v)} entries for {n} atoms")
+        for k in PER_ATOM_EXTRA:  # per-atom columns the loaders document under these names
+            v = (obj.extra or {}).get(k)
+            if v is not None and hasattr(v, "__len__") and len(v) != n:
+                out.append(f"extra[{k}] has {len(v)} entries for {n} atoms")
         if obj.athessian is not None and obj.athessian.shape != (3 * n, 3 * n):
             out.append(f"athessian shape {obj.athessian.shape} for {n} atoms")
     if obj.mo is not None and obj.obasis is not None and obj.mo.coeffs is not None and obj.mo.kind != "generalized":
